@@ -12,9 +12,12 @@ Record csplitter := mk_cs {
   cs_ranges : list (bytes * (N * N))
 }.
 
+(* NewCompactShareSplitter panics when the share builder cannot be made (share version > 127): Fault *)
 Definition new_csplitter (ns : namespace) (ver : N) : outcome csplitter :=
-  do b <- new_builder ns ver true;
-  Ok (mk_cs [] b ns ver false []).
+  match new_builder ns ver true with
+  | Ok b => Ok (mk_cs [] b ns ver false [])
+  | _ => Fault
+  end.
 
 Definition cs_with (c : csplitter) (shares : list share) (b : sbuilder) (done : bool) : csplitter :=
   mk_cs shares b (cs_ns c) (cs_ver c) done (cs_ranges c).
